@@ -6,6 +6,8 @@ import ChibiVerif.Model.Text
 import ChibiVerif.Spec.LiteralsSpec
 import ChibiVerif.Lemmas.LiteralsLemmas
 
+set_option linter.unusedSimpArgs false
+
 namespace ChibiVerif.Lemmas.Text
 open ChibiVerif.Text
 open ChibiVerif.Gen.Literals
